@@ -5,7 +5,7 @@ import struct
 
 from hypothesis import strategies as st
 
-from vf.core import Clause, Violation, require, sut
+from vf.core import HarnessError, Clause, Violation, require, sut
 from vf.oracle import svstruct
 from vf.props.c06 import Plan, plan_entry
 from vf.sim import scamp
@@ -132,6 +132,12 @@ def strat_ops(draw, tier, faults):
         pe = plan_entry().filter(lambda e: all(r[0] != "fatal"
                                                for r in e["replies"]))
         case["plan"] = draw(st.lists(pe, min_size=1, max_size=40))
+        if draw(st.integers(0, 5)) == 0:
+            # the machine is unreachable at first: every transmission of the
+            # first command (or two) is lost, the program catches the error
+            # and carries on with the same controller
+            case["plan"] = [{"req_lost": True, "replies": []}] * \
+                draw(st.sampled_from([5, 5, 10])) + case["plan"]
     return case
 
 
@@ -379,7 +385,8 @@ def check_ops(case):
                 if kind == "link_write":
                     chip = other
                 _expect_only(m, snaps, chip, lo, hi, what)
-                break
+                # the program carries on with the same controller
+                continue
             finally:
                 if block is not None:
                     block.__exit__(None, None, None)
@@ -454,8 +461,22 @@ def strat_structs(draw, tier):
                     "values": [draw(st.one_of(st.integers(0, top),
                                               st.just(top)))
                                for _ in range(f["count"])]})
+    vops = []
+    for _ in range(draw(st.integers(0, 3))):
+        vops.append({"write": draw(st.booleans()),
+                     "field": draw(st.sampled_from(
+                         ["cpu_state", "app_id", "sw_count", "user0", "r3",
+                          "time"])),
+                     "core": draw(st.integers(0, 17)),
+                     "chip": draw(st.sampled_from([[0, 0], [1, 0], [1, 1]])),
+                     "value": draw(st.integers(0, 0xffffffff))})
     return {"buffer": draw(st.sampled_from([32, 256])), "structs": structs,
             "ops": ops,
+            # the caller's file may give the per-core struct a base of its
+            # own (older struct files did): per-core fields still live in the
+            # core's block, block base + core x block size + offset
+            "vcpu_decl_base": draw(st.sampled_from([0, 0, 0xe5007000, 0x40])),
+            "vcpu_ops": vops,
             # half way through, the controller is given new definitions of
             # the same structs (as a boot with another struct file does): every
             # field lies `relayout` bytes further on
@@ -485,6 +506,12 @@ def check_structs(case):
     repo = os.environ.get("RIG_REPO", "/repo")
     with open(os.path.join(repo, "rig", "boot", "sark.struct"), "rb") as f:
         stock = f.read()
+    if case.get("vcpu_decl_base"):
+        head = b"name = vcpu\nsize = 128\nbase = 0\n"
+        if stock.count(head) != 1:
+            raise HarnessError("stock struct file: vcpu header not found")
+        stock = stock.replace(head, b"name = vcpu\nsize = 128\nbase = 0x%x\n"
+                              % case["vcpu_decl_base"])
     text = stock + b"\n" + struct_text(case["structs"]).encode()
     by_name = dict((s_["name"], s_) for s_ in case["structs"])
     nontrivial = False
@@ -543,12 +570,45 @@ def check_structs(case):
                 require(got == want, "read_struct_field did not return the "
                         "bytes at the field's offset in the struct",
                         dict(det, got=got, expected=want))
+        for op in case.get("vcpu_ops", []):
+            x, y = op["chip"]
+            chip = m.chips[(x, y)]
+            f = m.structs["vcpu"].fields[op["field"]]
+            vb = m.structs["sv"].fields["vcpu_base"]
+            addr = vb.unpack(chip.mem.read(
+                m.structs["sv"].base + vb.offset, 4)) + \
+                m.structs["vcpu"].size * op["core"] + f.offset
+            det = {"field": op["field"], "core": op["core"],
+                   "declared_base_of_vcpu": hex(case.get("vcpu_decl_base", 0)),
+                   "expected_address": hex(addr)}
+            if op["write"]:
+                snaps = dict((xy, c.mem.snapshot())
+                             for xy, c in m.chips.items())
+                val = op["value"] & ((1 << (8 * f.elem_size)) - 1)
+                with sut("write_vcpu_struct_field"):
+                    mc.write_vcpu_struct_field(op["field"], val, x, y,
+                                               op["core"])
+                require(chip.mem.read(addr, f.size) == f.pack(val),
+                        "write_vcpu_struct_field did not store the value in "
+                        "the core's block", det)
+                _expect_only(m, snaps, chip, addr, addr + f.size,
+                             "write_vcpu_struct_field")
+            else:
+                with sut("read_vcpu_struct_field"):
+                    got = mc.read_vcpu_struct_field(op["field"], x, y,
+                                                    op["core"])
+                want = f.unpack(chip.mem.read(addr, f.size))
+                require(got == want, "read_vcpu_struct_field does not return "
+                        "the core's field", dict(det, got=repr(got),
+                                                 expected=repr(want)))
     if m.violations:
         raise Violation("malformed command: %s" % m.violations[0][0],
                         m.violations[0][1])
     return {"nontrivial": nontrivial,
             "classes": sorted(set("offsets-" + s_["style"]
-                                  for s_ in case["structs"]))}
+                                  for s_ in case["structs"])) +
+            (["vcpu-with-declared-base"] if case.get("vcpu_decl_base") and
+             case.get("vcpu_ops") else [])}
 
 
 CLAUSES = [
